@@ -122,7 +122,7 @@ type Deco struct {
 	Trace   []int // kinds of the fallible calls since Arm (when Record)
 	Record  bool
 	Fired   bool
-	FiredAt int   // kind that failed
+	FiredAt int    // kind that failed
 	Yield   func() // called before every store call (schedule perturbation)
 	// KeyLog records keys touched by Get/Set/Delete/Item when non-nil.
 	KeyLog func(kind int, key []byte)
@@ -248,7 +248,13 @@ type decoCursor struct {
 	c store.Cursor
 }
 
-func (c *decoCursor) Seek(key []byte) error { c.d.hit(KSeek); return c.c.Seek(key) }
+func (c *decoCursor) Seek(key []byte) error {
+	c.d.hit(KSeek)
+	if f := c.d.KeyLog; f != nil {
+		f(KSeek, key)
+	}
+	return c.c.Seek(key)
+}
 func (c *decoCursor) Next()                 { c.c.Next() }
 func (c *decoCursor) Valid() bool           { return c.c.Valid() }
 func (c *decoCursor) Close() error          { return c.c.Close() }
